@@ -8,8 +8,8 @@
 (* StateStore.HandleInvokeTransaction (notifications, SUCCESS state, cache *)
 (* Commit and cross hashes only when Invoke returned no error) and         *)
 (* NativeService.Invoke (the save / clear / re-join bookkeeping of         *)
-(* notifications and crossHashes around a - possibly nested - call, which  *)
-(* is NOT undone on the error path; no nested write rollback exists).      *)
+(* notifications and crossHashes around a - possibly nested - call, with   *)
+(* the restore on the error path; no nested write rollback exists).        *)
 (*                                                                         *)
 (* A block is a sequence of transactions, a transaction a script: a        *)
 (* sequence of steps put k / del k / get k / rec (PutMerkleVal) / notify / *)
@@ -54,6 +54,8 @@ CONSTANTS
     SubMax,       \* max steps of a nested script (plus a trailing fail)
     Depth,        \* nesting depth of calls below the top level (0 = none)
     AllowCatch,   \* callers may ignore a callee's error
+    RestoreOnError, \* TRUE: Invoke gives the caller its notifications / cross hashes back when the callee fails (the code
+                  \* since the repair "fix: NativeService.Invoke restores caller state ..."); FALSE: the behaviour before it
     Runs,         \* executions of the block (C16)
     Clock,        \* wall-clock readings
     EmitOn        \* print one ROW per finished first execution
@@ -133,11 +135,14 @@ RunSteps(c, steps, pre, i, S, E) ==
                                         THEN IF st.catch THEN RunSteps(c, steps, pre, i + 1, [R EXCEPT !.err = FALSE], E)
                                              ELSE R
                                         ELSE RunSteps(c, steps, pre, i + 1, R, E)
-\* NativeService.Invoke: save and clear both lists, run the handler, and - only on success - re-join them
-\* (notifications: saved first; cross hashes: the callee's first).  Nothing is restored on the error path.
+\* NativeService.Invoke: save and clear both lists, run the handler, and on success re-join them (notifications:
+\* saved first; cross hashes: the callee's first).  On the error path the saved lists are put back (what the callee
+\* announced is dropped; its writes stay in the cache - there is no nested write rollback).  Before the repair nothing
+\* was restored: the caller's earlier notifications and records were lost and the callee's partial ones survived
+\* (RestoreOnError = FALSE keeps that behaviour as the documented counterexample).
 Invoke(c, steps, pre, S, E) ==
     LET inner == RunSteps(c, steps, pre, 1, [S EXCEPT !.nt = <<>>, !.xh = <<>>], E)
-    IN IF inner.err THEN inner
+    IN IF inner.err THEN (IF RestoreOnError THEN [inner EXCEPT !.nt = S.nt, !.xh = S.xh] ELSE inner)
        ELSE [inner EXCEPT !.nt = S.nt \o inner.nt, !.xh = inner.xh \o S.xh]
 
 S0 == [cache |-> EmptyLayer, nt |-> <<>>, xh |-> <<>>, rd |-> <<>>, err |-> FALSE]
@@ -199,8 +204,8 @@ Executed == IF t = 0 THEN Len(blk) ELSE t - 1
 PropC15 == Violations15(blk, Executed, Store, wall, Obs(res, ov)) = {}
 \* committed writes come from successful transactions only (direct reading of "a failed transaction leaves no trace")
 OverlayClean == \A fk \in FullKeys : TxOf(ov[fk]) # 0 => res[TxOf(ov[fk])].ok
-\* The model has the code's bookkeeping, so with AllowCatch it deviates from PropC15 exactly where the code is expected to:
-\* a successful transaction that went on after a callee's failure has lost what it announced before the call.
+\* With RestoreOnError = FALSE (the code before the repair) the model deviates from PropC15 exactly here: a successful
+\* transaction that went on after a callee's failure has lost what it announced before the call.
 PropC15ExceptCaught ==
     \A v \in Violations15(blk, Executed, Store, wall, Obs(res, ov)) :
         v[1] \in {"success-notify-lost", "success-record-lost"} /\ HasCaughtFailure(blk[v[2]])
